@@ -2,7 +2,7 @@
     This file holds only the property theorems; proofs live in Proofs/AamProofs.v. *)
 From Coq Require Import ZArith List.
 Import ListNotations.
-From FGV Require Import Base.Util Base.Bond Base.NX Model.Aam Spec.AamSpec Spec.AamCheck Proofs.AamProofs.
+From FGV Require Import Base.Util Base.Bond Base.NX Model.Aam Spec.AamSpec Spec.AamCheck Proofs.AamProofs Proofs.AamMore.
 
 (* complete_aam always terminates normally (the while loop's fuel is sufficient) and its
    result: same nodes/adjacency/other attributes, old numbers kept, every node mapped, and
@@ -33,6 +33,35 @@ Theorem C20_checker_sound : forall g off g',
   complete_okb g off (Some g') = true -> complete_spec g off g'.
 Proof. exact complete_okb_sound. Qed.
 
+(* idempotence: a completed graph is a fixed point of completion, whatever offset is passed next *)
+Theorem C20_idempotent : forall g off off' g',
+  complete_aam g off = Some g' -> complete_aam g' off' = Some g'.
+Proof. exact complete_aam_idempotent. Qed.
+
+(* "complete injective map": pairwise distinct old numbers give pairwise distinct numbers on ALL
+   nodes of the result (old and new together), one number per node, no node added or dropped *)
+Theorem C20_total_injective : forall g off g',
+  NoDup (existing_maps g) -> complete_aam g off = Some g' ->
+  NoDup (existing_maps g') /\ List.length (existing_maps g') = List.length g' /\
+  List.length g' = List.length g.
+Proof. exact complete_aam_total_injective. Qed.
+
+(* a number occurring twice in the result already occurred twice in the input *)
+Theorem C20_dup_only_old : forall g off g' k,
+  complete_aam g off = Some g' ->
+  (1 < count_occ Z.eq_dec (existing_maps g') k)%nat -> (1 < count_occ Z.eq_dec (existing_maps g) k)%nat.
+Proof. exact complete_aam_dup_only_old. Qed.
+
+(* the declarative specification admits exactly one result graph ... *)
+Theorem C20_spec_unique : forall g off g1 g2,
+  complete_spec g off g1 -> complete_spec g off g2 -> g1 = g2.
+Proof. exact complete_spec_unique. Qed.
+
+(* ... so an implementation output accepted by the checker IS the model's output *)
+Theorem C20_checker_exact : forall g off g',
+  complete_okb g off (Some g') = true -> complete_aam g off = Some g'.
+Proof. exact complete_okb_exact. Qed.
+
 (* non-vacuity: a concrete graph with a partial map *)
 Example C20_example :
   let g := [(5, (mkNA None (Some 3) None None None, [])); (2, (na_empty, [])); (9, (na_empty, []))]%Z in
@@ -44,3 +73,8 @@ Print Assumptions C20_complete_aam.
 Print Assumptions C20_injective.
 Print Assumptions C20_initialize_aam.
 Print Assumptions C20_checker_sound.
+Print Assumptions C20_idempotent.
+Print Assumptions C20_total_injective.
+Print Assumptions C20_dup_only_old.
+Print Assumptions C20_spec_unique.
+Print Assumptions C20_checker_exact.
